@@ -66,6 +66,9 @@ structure Cfg where
   sizeKnown : Bool := false
   reusedPconn : Bool := false          -- this attempt runs on an idle persistent connection
   repeatable : Bool := false           -- theLaunches < icap_retry_limit
+  maxCapacity : Nat := IcapConsts.maxCapacity       -- BodyPipe::MaxCapacity
+  backupLimit : Nat := IcapConsts.backupLimit       -- TheBackupLimit
+  reserve : Nat := IcapConsts.terminatorReserve     -- MemBuf keeps room for a terminator
   deriving DecidableEq, Repr
 
 structure St where
@@ -114,6 +117,7 @@ structure St where
   bypassed : Bool := false             -- bypassFailure() ran
   thrown : Bool := false
   stopped : Bool := false
+  crashed : Bool := false              -- the process died (exception out of swanSong, null dereference)
   deriving Repr
 
 abbrev Op := St → St
@@ -131,7 +135,7 @@ def must (c : St → Bool) : Op := cond c skip throwNow
 def St.have (s : St) : Nat := s.put - s.consumed
 /-- MemBuf::potentialSpaceSize() of the virgin pipe -/
 def St.potentialSpace (s : St) : Nat :=
-  if s.have + IcapConsts.terminatorReserve < IcapConsts.maxCapacity then IcapConsts.maxCapacity - (s.have + IcapConsts.terminatorReserve) else 0
+  if s.have + s.cfg.reserve < s.cfg.maxCapacity then s.cfg.maxCapacity - (s.have + s.cfg.reserve) else 0
 def St.total (s : St) : Nat := s.v.length
 /-- BodyPipe::mayNeedMoreData() of the virgin pipe -/
 def St.mayNeedMore (s : St) : Bool := !s.cfg.sizeKnown || s.put < s.total
@@ -140,7 +144,7 @@ def St.expectMoreAfter (s : St) (off : Nat) : Bool := off < s.put || (!s.prodEnd
 /-- space left in the adapted pipe -/
 def St.outSpace (s : St) : Nat :=
   let held := s.out.length - s.outTaken
-  if held + IcapConsts.terminatorReserve < IcapConsts.maxCapacity then IcapConsts.maxCapacity - (held + IcapConsts.terminatorReserve) else 0
+  if held + s.cfg.reserve < s.cfg.maxCapacity then s.cfg.maxCapacity - (held + s.cfg.reserve) else 0
 
 /-! ### flags -/
 
@@ -287,7 +291,8 @@ def startSending : Op := fun s =>
   let s1 := { s with isRepeatable := false, canStartBypass := false, protectGroupBypass := false,
                      answer := if s.answer == .none then .forward else s.answer }
   if s1.sending == .virgin then echoMore s1
-  else if s1.head == .none then { s1 with thrown := true }   -- updateSources(): Must(adapted.header)
+  else if s1.head == .none then { s1 with answer := if s.answer == .none then .aborted else s.answer, thrown := true }
+       -- Forward(nullptr): Iterator::handleAdaptedHeader() Must(aMsg) fails, the initiator sees an abort; updateSources(): Must(adapted.header)
   else s1
 
 /-- VirginBodyAct::plan() -/
@@ -303,7 +308,8 @@ def prepEchoing : Op := fun s =>
     let s1 := { s0 with head := .virginClone }
     if s1.cfg.hasBody then
       let s2 := if s1.vSending.st != .active then
-          (if IcapConsts.replanAfterStopBackup && s1.vSending.st == .disabled && s1.consumed == 0
+          (if IcapConsts.planChecksConsumed && s1.consumed != 0 then { s1 with thrown := true }
+           else if IcapConsts.replanAfterStopBackup && s1.vSending.st == .disabled && s1.consumed == 0
            then planSending { s1 with vSending := {} } else planSending s1)
         else s1
       if s2.thrown then s2 else
@@ -330,7 +336,8 @@ def prepPartialBodyEchoing (pos : Nat) : Op := fun s =>
 /-- ModXact::decideOnParsingBody() -/
 def decideOnParsingBody : Op := fun s =>
   if s.gotBody then
-    if s.outSt != .noPipe || s.head == .none then { s with parsing := .body, thrown := true }   -- makeAdaptedBodyPipe(): Must(!adapted.body_pipe); adapted.header is dereferenced
+    if s.head == .none then { s with parsing := .body, thrown := true, crashed := true }   -- makeAdaptedBodyPipe() dereferences adapted.header
+    else if s.outSt != .noPipe then { s with parsing := .body, thrown := true }             -- Must(!adapted.body_pipe)
     else if s.sending != .adapted then { s with parsing := .body, outSt := .isOpen, thrown := true }
     else { s with parsing := .body, outSt := .isOpen }
   else
@@ -395,7 +402,7 @@ def parseIcapHead (status : Nat) (hdr body trailer : Bool) : Op :=
    | 100 => handle100Continue
    | 200 | 201 => cond (fun _ => hdr) handle200Ok throwNow
    | 204 => handle204NoContent
-   | 206 => handle206PartialContent
+   | 206 => cond (fun _ => IcapConsts.validates206 && !hdr) throwNow handle206PartialContent
    | _ => handleUnknownScode) ;;
   whenOp (fun s => s.writing == .paused) (stopWriting true)
 
@@ -410,9 +417,13 @@ def parseHeadersIcap (status : Nat) (hdr body trailer : Bool) : Op :=
 
 /-- ModXact::swanSong() + Xaction::swanSong(): tellQueryAborted when no answer was sent -/
 def swanSong : Op := fun s =>
-  let s1 := stopSending false (stopWriting false { s with thrown := false })
-  { s1 with thrown := false, stopped := true, haveConn := false, readerOn := false, writerBusy := false,
-            answer := if s1.answer == .none then .aborted else s1.answer }
+  let s1 := stopWriting false { s with thrown := false }
+  -- an exception leaving swanSong() is not caught by the job call wrapper (callEnd() runs outside its try block): FATAL
+  if s1.thrown then { s1 with thrown := false, stopped := true, crashed := true } else
+  let s2 := stopSending false s1
+  if s2.thrown then { s2 with thrown := false, stopped := true, crashed := true } else
+  { s2 with stopped := true, haveConn := false, readerOn := false, writerBusy := false,
+            answer := if s2.answer == .none then .aborted else s2.answer }
 
 /-- ModXact::bypassFailure() -/
 def bypassFailure : Op :=
@@ -437,6 +448,7 @@ def St.doneAll (s : St) : Bool :=
 
 /-- after every handler: exception handling, then callEnd()/done() -/
 def finish : Op := fun s =>
+  if s.crashed then { s with stopped := true, thrown := false } else
   let s1 := if s.thrown then callException s else s
   if s1.stopped then s1 else if s1.doneAll then swanSong s1 else s1
 
@@ -468,7 +480,7 @@ inductive Ev
 
 /-- ModXact::makeAllowHeader() + the preview part of makeRequestHeaders() -/
 def makeAllowHeader : Op := fun s =>
-  let canBackupAll := !s.cfg.hasBody || (s.cfg.sizeKnown && decide (s.total < IcapConsts.backupLimit))
+  let canBackupAll := !s.cfg.hasBody || (s.cfg.sizeKnown && decide (s.total < s.cfg.backupLimit))
   let allow204in := s.preview.st != .disabled
   let allow204out := canBackupAll
   let any206 := s.cfg.allow206 && s.cfg.hasBody
@@ -555,6 +567,7 @@ def handler : Ev → Op
 /-- one event: ignored once the job is gone -/
 def step (s : St) (e : Ev) : St := if s.stopped then s else finish (handler e s)
 
+
 def run (s : St) (es : List Ev) : St := es.foldl step s
 
 /-- ModXact::start() up to openConnection(): estimateVirginBody, canStartBypass, decideOnPreview, decideOnRetries -/
@@ -564,11 +577,11 @@ def init (cfg : Cfg) (v : Bytes) : St :=
   let s2 : St := { s1 with canStartBypass := cfg.bypass, isRepeatable := cfg.repeatable, writing := .connect }
   let s3 : St := match cfg.previewWanted with
     | some wanted =>
-      let ad0 := min wanted IcapConsts.backupLimit
+      let ad0 := min wanted cfg.backupLimit
       let ad := if !cfg.hasBody then 0 else if cfg.sizeKnown then min ad0 v.length else ad0
       { s2 with preview := { st := .writing, written := 0, ad := ad } }
     | none => s2
-  let canBackupAll := !cfg.hasBody || (cfg.sizeKnown && decide (v.length < IcapConsts.backupLimit))
+  let canBackupAll := !cfg.hasBody || (cfg.sizeKnown && decide (v.length < cfg.backupLimit))
   let s4 : St := if s3.preview.st != .disabled || canBackupAll then s3 else { s3 with isRetriable := false }
   if cfg.reusedPconn then s4 else { s4 with isRetriable := false }
 
